@@ -10,7 +10,7 @@
      before p q l     the first occurrence of p in l precedes every occurrence of q *)
 From Coq Require Import String List Bool Arith Lia.
 Import ListNotations.
-From SG Require Import State.Modules Proofs.ModulesProofs.
+From SG Require Import State.Modules Proofs.ModulesProofs Gen.GenModuleSigs.
 Local Open Scope nat_scope.
 
 (* ---- the hypotheses are what they should be -------------------------------------------------------- *)
@@ -83,6 +83,33 @@ Theorem zero_freeze_act_on_params :
 Proof. intros h m o Hwf Hnc Hv. apply param_ops_spec; [exact Hwf|apply no_cycle_acyclic; assumption|exact Hv]. Qed.
 Goal True. idtac "ASSUMPTIONS zero_freeze_act_on_params". Abort.
 Print Assumptions zero_freeze_act_on_params.
+
+(* ... and the effect is absolute, not relative to earlier calls: after m.unfreeze() (b = true) EVERY parameter reachable
+   from m requires grad, after m.freeze() (b = false) none does, for the heap reached by ANY event history (earlier
+   freezes / unfreezes of any node, requires_grad flipped by hand, modules attached or replaced in between); num_params
+   then reports everything as trainable resp. non-trainable *)
+Theorem freeze_unfreeze_whatever_happened_before :
+  forall t h m (b : bool), run init t = Some h -> no_cycle h -> m < length (mods h) ->
+  exists h' ps,
+    step h (if b then Unfreeze m else Freeze m) = Some h' /\ mods h' = mods h /\
+    parameters h' m = Some ps /\
+    (forall m' p, reach h m m' -> owns h m' p -> option_map p_req (nth_error (pars h') p) = Some b) /\
+    num_params h' m All = Some (sum_sizes h ps) /\
+    num_params h' m Trainable = Some (if b then sum_sizes h ps else 0) /\
+    num_params h' m NonTrainable = Some (if b then 0 else sum_sizes h ps).
+Proof.
+  intros t h m b Hrun Hnc Hv. pose proof (wf_run t init h wf_init Hrun) as Hwf.
+  apply freeze_unfreeze_absolute; [exact Hwf|apply no_cycle_acyclic; assumption|exact Hv].
+Qed.
+Goal True. idtac "ASSUMPTIONS freeze_unfreeze_whatever_happened_before". Abort.
+Print Assumptions freeze_unfreeze_whatever_happened_before.
+
+Example ex_freeze_history :
+  option_map (fun h => map p_req (pars h))
+    (run init [NewModule; NewModule; NewParam 3 true; NewParam 2 true;
+               SetAttr 0 "w" (VParam 1); SetAttr 0 "a" (VModule 1); SetAttr 1 "w" (VParam 0);
+               Freeze 1; Freeze 0; Unfreeze 0]%string) = Some [true; true].
+Proof. vm_compute. reflexivity. Qed.
 
 (* what the three functions do to one parameter *)
 Example pop_fun_table :
@@ -190,3 +217,43 @@ Proof.
       injection HM as <-; simpl in Hc; intuition (subst; lia).
   - intros [|[|m]]; simpl; lia.
 Qed.
+
+(* ---- the public entry points and the state of a Module are the documented ones --------------------------
+   Generated from modules.py on every run (lib/py2coq/gen_sigs.py -> Gen/GenModuleSigs.v).  The model's module state is
+   {_submodules, _parameters, training} (+ the constant _initialized and the user attributes written by the registration
+   mechanism); a further attribute written by the class (e.g. a cache of frozen parameters) would be state the model does
+   not have and breaks this obligation. *)
+Theorem modules_signatures_documented :
+  modules_signatures =
+ [
+  ("Parameter.__repr__", [("self", "pos", "")]);
+  ("Module.__init__", [("self", "pos", "")]);
+  ("Module.train", [("self", "pos", "")]);
+  ("Module.eval", [("self", "pos", "")]);
+  ("Module.__call__", [("self", "pos", ""); ("inputs", "varargs", ""); ("kwargs", "varkw", "")]);
+  ("Module.zero_grad", [("self", "pos", "")]);
+  ("Module.freeze", [("self", "pos", "")]);
+  ("Module.unfreeze", [("self", "pos", "")]);
+  ("Module.check_is_initialized", [("self", "pos", "")]);
+  ("Module.register_module", [("self", "pos", ""); ("name", "pos", ""); ("module", "pos", "")]);
+  ("Module.register_parameter", [("self", "pos", ""); ("name", "pos", ""); ("parameter", "pos", "")]);
+  ("Module.apply", [("self", "pos", ""); ("fn", "pos", "")]);
+  ("Module.__setattr__", [("self", "pos", ""); ("_Module__name", "pos", ""); ("_Module__value", "pos", "")]);
+  ("Module.parameters", [("self", "pos", "")]);
+  ("Module.submodules", [("self", "pos", "")]);
+  ("Module.num_params", [("self", "pos", ""); ("trainable", "pos", "False"); ("non_trainable", "pos", "False")]);
+  ("Module.forward", [("self", "pos", ""); ("args", "varargs", ""); ("kwargs", "varkw", "")]);
+  ("Module.cpu", [("self", "pos", "")]);
+  ("Module.__repr__", [("self", "pos", "")]);
+  ("Sequential.__init__", [("self", "pos", ""); ("modules", "varargs", "")]);
+  ("Sequential.forward", [("self", "pos", ""); ("x", "pos", "")])
+ ]%string
+  /\ modules_state =
+ [
+  ("Parameter", []);
+  ("Module", ["_submodules"; "_parameters"; "_initialized"; "training"; "<attribute named by parameter name>"; "<attribute named by parameter __name>"]);
+  ("Sequential", [])
+ ]%string.
+Proof. split; reflexivity. Qed.
+Goal True. idtac "ASSUMPTIONS modules_signatures_documented". Abort.
+Print Assumptions modules_signatures_documented.
